@@ -16,6 +16,7 @@ def explore(ck, name, cfg, steps, label):
     coq_in = []
     agent_name = env._agent_name
     focus, focus_left = None, 0
+    story = None
 
     def widen(env):
         # the action map is arbitrary scenario data: use the whole registered action space over existing and
@@ -87,6 +88,23 @@ def explore(ck, name, cfg, steps, label):
                 pool = same or pool
                 focus_left -= 1
             (i, t, o, req, reaches) = rng.choice(pool)
+            # directed story, once per exploration: install an application at run time, then address it at once (INSTALLING
+            # window) and after closing it -- the lifecycle window in which its own permission rules differ from its host's
+            if story is None and st >= 2:
+                inst = [e for e in entries if e[1] == "node-application-install" and mask[e[0]] and e[4]
+                        and not any(x[1] == "node-application-close" and ent(x) == ent(e) and x[4] for x in entries)]
+                if inst:
+                    e0 = rng.choice(inst)
+                    story = [("node-application-install", ent(e0))] + [(v, ent(e0)) for v in
+                             ("node-application-scan", "node-application-close", "node-application-fix", "node-application-execute",
+                              "node-application-close", "node-application-scan")]
+            if story:
+                want = story[0]
+                cand = [e for e in entries if e[1] == want[0] and ent(e) == want[1]]
+                story.pop(0)
+                if cand:
+                    (i, t, o, req, reaches) = cand[0]
+                    ck.count("story:%s" % want[0])
             if focus_left == 0 and rng.random() < 0.5:
                 focus, focus_left = ent((i, t, o, req, reaches)), rng.randint(3, 7)
             transitional = any(nd.operating_state.name not in ("ON", "OFF") for nd in sim.network.nodes.values())
@@ -174,7 +192,7 @@ def run(ck):
                "down/boot, services restart, applications install) and its outcome compared with its mask bit; non-trivial = entry that is "
                "refused or changes power/lifecycle state; distinct by (scenario, step, entry, bit)")
     coq_props(ck)
-    gen_tie.check(ck, ["reqtree"])
+    gen_tie.check(ck, ["reqtree", "request"])
     for i, (name, cfg) in enumerate(scenarios(ck)):
         cfg = dict(cfg)
         for a in cfg.get("agents", []):
